@@ -52,7 +52,7 @@ Section KindCF.
     CK k false interop v = Ok (p, hc) -> cf_val w cfo k p = true.
   Proof.
     induction k; intros Hk interop jv pv hcv Hv H; cbn [kind_proved] in Hk; try discriminate; cbn [cf_val]; try reflexivity;
-      cbn [clean_kind] in H.
+      cbn [clean_kind] in H; try discriminate.
     - (* hashes *)
       unfold clean_hashes, bind in H. destruct (clean_dictionary vr v jv); try discriminate.
       destruct (hashes_loop_cf names a [] false pv hcv H eq_refl eq_refl) as [acc' [Ep Ha]]. subst pv. exact Ha.
